@@ -402,6 +402,12 @@ def run(ctx):
                     "variables" if msg.startswith("variables") else "feasible-set")
             report(f"oracle/arc/{kind}", msg, inst, badx, lambda c: fails(c, 12))
         decs = []
+        if feas is not None and not msg and n <= 12:
+            # self-check of the generic 0-1 search used on complete grids against the exhaustive sweep
+            order = sorted(range(n), key=lambda k: (obs["vars"][k][1], obs["vars"][k][3]))
+            alt = enum_feasible(obs["A"], obs["b"], n, 10 ** 6, order, budget=10 ** 7)
+            if alt is None or sorted(alt) != sorted(feas):
+                ctx.tooling_failure("oracle/enum_feasible", f"0-1 search and 2^n sweep disagree on {ac.describe(inst)}")
         if feas is not None:
             dist["swept_exhaustively"] += 1
             dist["vectors_swept"] += 2 ** n
@@ -451,6 +457,7 @@ def run(ctx):
             ctx.count(nontrivial=1)
 
     # complete grids: feasibility and optimum vs the reference VRPTW
+    ref_terms = []
     for _ in range(n_complete):
         inst = gen_complete(rng)
         try:
@@ -459,6 +466,14 @@ def run(ctx):
             report("oracle/arc/exception", f"building the constraint or objective data raised {exc_cls(e)}: {e}",
                    inst, None, None)
             continue
+        if len(ref_terms) < (150 if ctx.quick else 1500):     # the Python reference vs Arc_ref.vrptw_route
+            custs = list(range(1, len(obs["snap"][1])))
+            rng.shuffle(custs)
+            for seq in (custs, custs[:1], custs[:2][::-1]):
+                r = vrptw_route_ok(obs["snap"], seq)
+                rl = "None" if r is None else "(Some " + lit.pair(
+                    lit.lst([lit.pair(lit.nat(a), lit.z(b)) for a, b in r[1]]), lit.z(r[0])) + ")"
+                ref_terms.append((ac.graph_lit(obs["snap"]), lit.lst([lit.nat(c) for c in seq]), rl))
         msg, badx = oracle_complete(inst, obs)
         if msg == "skipped":
             dist["complete_skipped"] += 1
@@ -498,6 +513,14 @@ def run(ctx):
         if not err and not any(idx == canary for idx, _ in mism):
             ctx.tooling_failure("correspondence/canary", "a deliberately wrong case was not flagged by the Coq comparison")
         mism = [(i, t) for i, t in mism if i < canary]
+    if ref_terms:
+        rm, rerr = ctx.coq_mismatches("ref", ac.HEADER.replace(" Arc.", " Arc Arc_ref."), "refcase", "check_refcase",
+                                      [lit.tup(*t) for t in ref_terms] +
+                                      [lit.tup(ref_terms[0][0], ref_terms[0][1], "(Some ([], 77%Z))")], shard=200)
+        if not rerr and [i for i, _ in rm] != [len(ref_terms)]:
+            ctx.tooling_failure("reference/vrptw_route", "the harness' Python VRPTW route evaluation and Arc_ref.vrptw_route "
+                                f"disagree on cases {[i for i, _ in rm][:5]} (the last case is a canary and must be flagged)")
+        ctx.cov["reference_routes_compared"] = len(ref_terms)
     for idx, tags in mism[:1]:
         if ctx.has_concrete():
             break                         # one VIOLATION per breakage: a concrete failing input was reported
